@@ -8,10 +8,14 @@ from stepup.core.rpc import MAX_BODY_SIZE, RPCCall, _encode_body, _encode_messag
 from .common import coq_bool, coq_list, coq_str
 
 COQ_HEADER = r"""
+From Coq Require Import String Ascii.
 From Coq Require Import List Arith NArith Bool.
 Import ListNotations.
 From SV Require Import lib.Bytes lib.RpcTypes gen.GenRpc model.Rpc.
 Open Scope N_scope.
+Definition hexval (a : ascii) : N := let n := N_of_ascii a in if n <? 58 then n - 48 else n - 87.
+Fixpoint hex (s : string) : str :=
+  match s with String a (String b r) => (hexval a * 16 + hexval b) :: hex r | _ => [] end.
 Definition sub (s : str) (lo n : nat) : str := firstn n (skipn lo s).
 Fixpoint assoc {A} (tbl : list (str * A)) (b : str) : option A :=
   match tbl with [] => None | (k, v) :: r => if str_eqb k b then Some v else assoc r b end.
@@ -48,8 +52,25 @@ Definition ob_ok (c : conn) (o : ob) : bool :=
   && Bool.eqb (c_stop c) (o_stop o)
   && status_eqb (status_of c) (o_status o)
   && Bool.eqb (match c_send c with SDrain | SDrainFail => true | _ => false end) (o_draining o).
-Fixpoint obs_ok (cs : list conn) (os : list ob) : bool :=
-  match cs, os with [], [] => true | c :: cs', o :: os' => ob_ok c o && obs_ok cs' os' | _, _ => false end.
+(* intermediate observations carry only the lengths of the append-only lists *)
+Record lob := mk_lob { l_nwire : nat; l_queue : list N; l_inflight : list N; l_ninvoked : nat;
+  l_cancelled : list N; l_nfinished : nat; l_stop : bool; l_status : status; l_draining : bool }.
+Definition lob_ok (c : conn) (o : lob) : bool :=
+  (Nat.leb (length (c_wire c)) (l_nwire o) && Nat.leb (l_nwire o) (length (c_wire c) + length (c_racy c)))
+  && (if sender_alive (c_send c) then list_eqb N.eqb (map fst (c_queue c)) (l_queue o) else true)
+  && list_eqb N.eqb (map fst (c_inflight c)) (l_inflight o)
+  && Nat.eqb (length (c_invoked c)) (l_ninvoked o)
+  && list_eqb N.eqb (sortN (c_cancelled c)) (sortN (l_cancelled o))
+  && Nat.eqb (length (c_completed c)) (l_nfinished o)
+  && Bool.eqb (c_stop c) (l_stop o)
+  && status_eqb (status_of c) (l_status o)
+  && Bool.eqb (match c_send c with SDrain | SDrainFail => true | _ => false end) (l_draining o).
+Fixpoint obs_ok (cs : list conn) (os : list lob) (last : ob) : bool :=
+  match cs, os with
+  | [c], [] => ob_ok c last
+  | c :: cs', o :: os' => lob_ok c o && obs_ok cs' os' last
+  | _, _ => false
+  end.
 Definition cres_eqb (a b : cresult) := match a, b with CRConnLost, CRConnLost => true | CRBody x, CRBody y => opt_eqb x y | _, _ => false end.
 Definition done_eqb (a b : N * cresult) := (fst a =? fst b) && cres_eqb (snd a) (snd b).
 Definition pend_eqb (a b : N * bool) := (fst a =? fst b) && Bool.eqb (snd a) (snd b).
@@ -75,6 +96,10 @@ def coq_status(s):
             return "StFailedRecv"
         return "StFailedSend"
     raise ValueError(s)
+
+
+def coq_hex(b: bytes) -> str:
+    return f'(hex "{b.hex()}"%string)'
 
 
 def coq_nlist(xs):
@@ -126,7 +151,7 @@ def classify_table(msgs):
             continue  # absent from the table = classify gives None
         name, args_ok, imm = cls
         immc = "None" if imm is None else f"(Some {OUTCOMES[imm]})"
-        rows.append(f"({coq_str(body)}, mk_rq {coq_str(name)} {coq_bool(args_ok)} {immc})")
+        rows.append(f"({coq_hex(body)}, mk_rq {coq_str(name)} {coq_bool(args_ok)} {immc})")
     return "[" + "; ".join(rows) + "]"
 
 
@@ -234,9 +259,203 @@ def coq_ob(o):
             f"{coq_bool(o['stop'])} {coq_status(o['status'])} {coq_bool(o['draining'])}")
 
 
+def coq_lob(o):
+    return (f"(mk_lob {len(o['sent'])} {coq_nlist(o['queued_ids'])} {coq_nlist(o['in_flight'])} "
+            f"{len(o['invoked'])} {coq_nlist(o['cancelled'])} {len(o['finished'])} "
+            f"{coq_bool(o['stop'])} {coq_status(o['status'])} {coq_bool(o['draining'])})")
+
+
 def server_check_term(events, msgs, stream, obs):
-    """Gallina bool: the model's trace agrees with the observations obs[1:] (obs[0] is the start)."""
-    return (f"let stream := {coq_str(stream)} in let tbl := {classify_table(msgs)} in "
+    """Gallina bool: the model's trace agrees with the observations after every event.
+
+    The written replies, the invoked procedures and the finished handlers only ever grow (checked
+    on the implementation's side by the harness), so the intermediate observations carry their
+    lengths and the last one the full lists."""
+    if not events:
+        return f"ob_ok conn_init ({coq_ob(obs[0])})"
+    return (f"let stream : str := {coq_hex(stream)} in let tbl := {classify_table(msgs)} in "
             f"ob_ok conn_init ({coq_ob(obs[0])}) && "
             f"obs_ok (trace (assoc tbl) hlookup conn_init {coq_list([coq_event(e) for e in events])}) "
-            f"{coq_list(['(' + coq_ob(o) + ')' for o in obs[1:]])}")
+            f"{coq_list([coq_lob(o) for o in obs[1:-1]])} ({coq_ob(obs[-1])})")
+
+
+# ---------------------------------------------------------------------------------------------
+# client scenarios
+# ---------------------------------------------------------------------------------------------
+
+COQ_HEADER_CLIENT = COQ_HEADER + r"""
+Record cob := mk_cob { b_alive : bool; b_failed : bool; b_counter : N; b_pending : list (N * bool); b_ndone : nat }.
+Definition cob_ok (k : client) (o : cob) : bool :=
+  Bool.eqb (k_alive k) (b_alive o) && Bool.eqb (k_failed k) (b_failed o) && (k_counter k =? b_counter o)
+  && list_eqb pend_eqb (k_pending k) (b_pending o) && Nat.eqb (length (k_done k)) (b_ndone o).
+Fixpoint ctrace_ok (k : client) (evs : list cevent) (os : list cob) : bool :=
+  match evs, os with
+  | [], [] => true
+  | e :: r, o :: os' => let k' := cstep k e in cob_ok k' o && ctrace_ok k' r os'
+  | _, _ => false
+  end.
+Fixpoint sync_calls (exps : list N) (st : rphase) (buf : list ritem) (frags : list str) : list sync_result :=
+  match exps with
+  | [] => []
+  | e :: r => let '(res, st', buf', frags') := sync_recv e st buf frags in
+              match res with
+              | SyOk _ | SyMismatch _ => res :: sync_calls r st' buf' frags'
+              | _ => [res]
+              end
+  end.
+"""
+
+
+def reply_body(rng, nonce):
+    """A unique, self-identifying response body (or None for the sentinel)."""
+    from stepup.core.rpc import RemoteFailure
+    kind = rng.choice(["ok", "ok", "ok", "usage", "internal", "none"])
+    if kind == "ok":
+        return _encode_body(("ok", nonce)), kind
+    if kind == "usage":
+        return _encode_body(RemoteFailure("stepup.core.exceptions", rng.choice(["CyclicError", "GraphError"]),
+                                          f"u{nonce}#", f"TB u{nonce}#", True)), kind
+    if kind == "internal":
+        return _encode_body(RemoteFailure("builtins", "RuntimeError", f"i{nonce}#", f"TB i{nonce}#", False)), kind
+    return None, kind
+
+
+def client_scenario(rng, size):
+    ncall = rng.randint(1, size)
+    replies = []
+    ids = list(range(1, ncall + 1))
+    rng.shuffle(ids)
+    p_weird = rng.choice([0.0, 0.0, 0.15])
+    nonce = 100
+    for cid in ids:
+        if rng.random() < 0.15:
+            continue  # never answered
+        nonce += 1
+        r = rng.random()
+        if r < p_weird / 3:
+            replies.append(("oversize", cid, None, nonce))
+        elif r < 2 * p_weird / 3:
+            replies.append(("msg", rng.choice([0, ncall + 5, cid, 2 ** 63]), *reply_body(rng, nonce)[:1], nonce))
+            replies.append(("msg", cid, *reply_body(rng, nonce + 1000)[:1], nonce + 1000))
+        else:
+            replies.append(("msg", cid, reply_body(rng, nonce)[0], nonce))
+    stream = b""
+    bodies = {}
+    for kind, cid, body, n in replies:
+        if kind == "oversize":
+            stream += cid.to_bytes(8, "big") + (MAX_BODY_SIZE + 1 + n).to_bytes(8, "big")
+        else:
+            stream += _encode_message(cid, body)
+            bodies[n] = body
+    frags = fragment(rng, stream, rng.choice(["one", "random", "hdr", "hdr", "bytes" if len(stream) < 300 else "random"]))
+    events = []
+    calls_left = ncall
+    issued = 0
+    early = rng.random() < 0.6
+    if early:  # issue most calls first, so that replies find them pending
+        k = rng.randint(max(1, ncall - 1), ncall)
+        for _ in range(k):
+            events.append(["call"])
+            issued += 1
+        calls_left -= k
+    pos = 0
+    for f in frags:
+        while calls_left and rng.random() < 0.5:
+            events.append(["call"])
+            calls_left -= 1
+            issued += 1
+        if issued and rng.random() < 0.08:
+            events.append(["cancel", rng.randint(1, issued)])
+        events.append(["recv", pos, len(f)])
+        pos += len(f)
+        if rng.random() < 0.03:
+            events.append(["peergone"])
+    while calls_left:
+        events.append(["call"])
+        calls_left -= 1
+    r = rng.random()
+    if r < 0.4:
+        events.append(["peergone"])
+    elif r < 0.8:
+        events.append(["close"])
+    if rng.random() < 0.3:
+        events.append(["call"])
+    return events, stream, bodies
+
+
+def coq_cevent(ev):
+    k = ev[0]
+    if k == "call":
+        return "CCall"
+    if k == "cancel":
+        return f"CCancel {ev[1]}"
+    if k == "recv":
+        return f"CRecv (sub stream {ev[1]} {ev[2]})"
+    return {"peergone": "CPeerGone", "close": "CClose"}[k]
+
+
+def real_done_to_coq(done, bodies):
+    """Map the outcomes the callers saw back to what their future must have received."""
+    import re
+    out = []
+    for cid, oc in done:
+        if oc[0] == "value":
+            nonce = oc[1][1]
+            out.append(f"({cid}, CRBody (Some {coq_hex(bodies[nonce])}))")
+        else:
+            _, cls, msg = oc
+            if cls == "ConnectionResetError":
+                out.append(f"({cid}, CRConnLost)")
+            elif cls == "RPCError" and "could not send a reply" in msg:
+                out.append(f"({cid}, CRBody None)")
+            else:
+                m = re.search(r"[ui](\d+)#", msg)
+                if not m:
+                    out.append(f"({cid}, CRBody (Some [255]))")  # unexplained outcome: cannot match
+                else:
+                    out.append(f"({cid}, CRBody (Some {coq_hex(bodies[int(m.group(1))])}))")
+    return "[" + "; ".join(out) + "]"
+
+
+def coq_cob(o):
+    pend = "[" + ";".join(f"({c},{coq_bool(w)})" for c, w in o["pending"]) + "]"
+    return f"(mk_cob {coq_bool(o['alive'])} {coq_bool(o['failed'])} {o['counter']} {pend} {len(o['done'])})"
+
+
+def client_check_term(events, stream, bodies, obs):
+    evs = coq_list([coq_cevent(e) for e in events])
+    return (f"let stream : str := {coq_hex(stream)} in "
+            f"cob_ok client_init {coq_cob(obs[0])} && ctrace_ok client_init {evs} {coq_list([coq_cob(o) for o in obs[1:]])} "
+            f"&& list_eqb done_eqb (k_done (crun client_init {evs})) {real_done_to_coq(obs[-1]['done'], bodies)}")
+
+
+def sync_scenario(rng):
+    n = rng.randint(1, 5)
+    msgs, exps = [], []
+    stream = b""
+    for i in range(n):
+        cid = rng.choice([i + 1, i + 1, i + 1, 2 ** 64 - 1 - i])
+        exp = cid if rng.random() < 0.8 else cid + 1
+        r = rng.random()
+        if r < 0.08:
+            stream += cid.to_bytes(8, "big") + (MAX_BODY_SIZE + 1).to_bytes(8, "big")
+        else:
+            body = None if r < 0.2 else bytes(rng.randrange(256) for _ in range(rng.randint(1, 40)))
+            stream += _encode_message(cid, body)
+        exps.append(exp)
+    if rng.random() < 0.3:
+        stream = stream[:rng.randint(0, len(stream))]
+        exps.append(1)
+    frags = fragment(rng, stream, rng.choice(["one", "random", "hdr", "bytes"]))
+    return frags, exps
+
+
+def sync_check_term(frags, exps, real):
+    def res(r):
+        if r[0] == "ok":
+            return "SyOk " + ("None" if r[1] is None else f"(Some {coq_hex(r[1])})")
+        if r[0] == "mismatch":
+            return f"SyMismatch {r[1]}"
+        return {"reset": "SyConnReset", "badframe": "SyBadFrame"}[r[0]]
+    return (f"list_eqb sync_eqb (sync_calls {coq_nlist(exps)} reader_idle [] {coq_list([coq_hex(f) for f in frags])}) "
+            f"{coq_list(['(' + res(r) + ')' for r in real])}")
